@@ -1485,8 +1485,14 @@ func main() {
 		}
 		out.Case(op, "accept", cls, true)
 	}
-	for i := 0; i < specrRuns(tier) && atomic.LoadInt64(&hung) == 0; i++ {
-		c := genSpecr(r, i)
+	grid := specrGrid()
+	for i := 0; i < len(grid)+specrRuns(tier) && atomic.LoadInt64(&hung) == 0; i++ {
+		var c specrScn
+		if i < len(grid) {
+			c = grid[i]
+		} else {
+			c = genSpecr(r, i-len(grid))
+		}
 		op := runSpecRetry(c, r)
 		if strings.HasPrefix(op, "fatal") {
 			fmt.Fprintln(os.Stderr, "c13:", op)
@@ -1503,6 +1509,32 @@ func specrRuns(tier string) int {
 		return 1200
 	}
 	return 120
+}
+
+// specrGrid: every statement kind x observer attached or not x barrier / at-once answers, several executions and a
+// long sequence of same-host retries on the shared counter — the same scenarios for every seed and tier
+func specrGrid() []specrScn {
+	var out []specrScn
+	n := 0
+	for _, kind := range []string{"q", "bl", "bu", "bc"} {
+		for _, obs := range []bool{true, false} {
+			for _, mode := range []string{"b", "i"} {
+				c := specrScn{kind: kind, idem: "1", obs: obs, mode: mode, a: 2 + n%4, fates: []string{"e1", "e9", "e7", "e2"}}
+				if kind != "q" {
+					c.idem = strings.Repeat("1", 1+n%5)
+				}
+				lim := 300 + 40*(n%5)
+				if mode == "i" {
+					lim *= 3
+				}
+				c.policy = fmt.Sprintf("custom:%d:rrrrrrrrrrr", lim)
+				c.nhosts = 1 + c.a + n%2
+				out = append(out, c)
+				n++
+			}
+		}
+	}
+	return out
 }
 
 // genSpecr: a speculated statement whose executions all fail and retry. Modes: p = every answer after its own small
